@@ -10,7 +10,7 @@ CHECKS = {
     # id: (engine, category, technique, text, note, design_ref)
     "C01": ("S", "model_checking",
             "stateless schedule exploration (token-passing scheduler over OS threads, DFS with preemption bounding) of pairs/triples of real writer operations on a shared store; plus bounded exhaustive enumeration of provider tool-loop scripts for the sequential numbering clause",
-            "Every unordered pair of 13 real writer/reader operations (message, run spawned/ended, side effects, cursor set/rotate, selection decided, manual/auto/scheduled compaction, branch, handoff, reader replay) on one shared thread, from four pre-states (warm; restarted; restarted without caches; restarted with caches that lag the last logged frame while the log ends with another thread), plus sessions and linked runs sharing the log writer, is explored over all interleavings at publish / cache / log-effect hooks AND at the acquisitions of the seq lock and the log writer lock with <=1 (quick) / <=2-3 (thorough, plus triples) preemptions; at quiescence a fresh EventLog must pass validated replay, every stream must read 0..n-1 in file order, every acknowledged id must appear once, and the same after a restart plus one more append per thread. Sequential part: every provider script with <=1 function call x 7 tool_choice settings x 2 history modes through the production router; every stream of the log must read 0..n-1.",
+            "Every unordered pair of 13 real writer/reader operations (message, run spawned/ended, side effects, cursor set/rotate, selection decided, manual/auto/scheduled compaction, branch, handoff, reader replay) on one shared thread, from four pre-states (warm; restarted; restarted without caches; restarted with caches that lag the last logged frame while the log ends with another thread), plus sessions and linked runs sharing the log writer, is explored over all interleavings at publish / cache / log-effect hooks AND at the acquisitions of the seq lock and the log writer lock with <=1 (quick) / <=2-3 (thorough, plus triples) preemptions; at quiescence a fresh EventLog must pass validated replay, every stream must read 0..n-1 in file order, every acknowledged id must appear once, and the same after a restart plus one more append per thread. Sequential part: every provider script with <=1 function call x 7 tool_choice settings x 2 history modes through the production router; every stream of the log must read 0..n-1; and every way of starting runs on one session through POST /sessions/{id}/input (once, twice back to back, twice / three times after the previous run ended): whatever the server answers, the session stream must read 0..n-1.",
             "2-3 actors, one op each; scheduling granularity = hook points incl. lock acquisitions (critical sections are the real ones: predicates read the real locks); a race added between two steps without a hook in between is not seen; preemption bound; histories crossing several restarts are covered by C05/C04.",
             "DESIGN.md §3 C01"),
     "C02": ("H-histories", "exploration",
@@ -90,7 +90,7 @@ CHECKS = {
             "DESIGN.md §3 C16"),
     "C17": ("H-inputs", "exploration",
             "bounded exhaustive enumeration of outputs x ALL chunk compositions x preview limits x caps through the real foreground capture loop with a scripted reader; every (offset, max_bytes) page; pipe-mode tasks x cancel moments through the production router",
-            "Part 1: every output of <=3 (quick) / <=4 (thorough) symbols from {a, LF, 2-byte, 4-byte, 0xFF} in all 2^(n-1) chunk compositions x 7 preview limits x 5 artifact caps, plus 7 large outputs around the 8 KiB read size x 8 preview limits x 5 caps: stored bytes must be the byte prefix up to the cap, the artifact must be named by the sha256 of its bytes, bytes/truncated/total exact, preview a prefix within its limit. Part 2: 6 blobs x every (offset, max_bytes) and sequential pages of 1..6 bytes through artifact_fetch. Part 3: 11 pipe-mode task commands x 3-5 cancel moments through POST /tasks: spawn first, running at most once, exactly one terminal status last, cancel request before cancellation, 0..n-1 numbering, byte-exact stored stdout, consecutive delta ranges.",
+            "Part 1: every output of <=3 (quick) / <=4 (thorough) symbols from {a, LF, 2-byte, 4-byte, 0xFF} in all 2^(n-1) chunk compositions x 7 preview limits x 5 artifact caps, plus 7 large outputs around the 8 KiB read size x 8 preview limits x 5 caps: stored bytes must be the byte prefix up to the cap, the artifact must be named by the sha256 of its bytes, bytes/truncated/total exact, preview a prefix within its limit. Part 2: 6 blobs x every (offset, max_bytes) and sequential pages of 1..6 bytes through artifact_fetch. Part 3: 15 pipe-mode task commands (incl. preview limits 0, 1, 2 with multi-byte output) x 3-5 cancel moments through POST /tasks: spawn first, running at most once, exactly one terminal status last, cancel request before cancellation, 0..n-1 numbering, byte-exact stored stdout, consecutive delta ranges.",
             "PTY tasks excluded (no PTY in this sandbox); task cancel moments are wall-clock points (judged by the schedule-independent lifecycle grammar only), the cancel-at-every-hook-point gating of the design is not built; the task pump is exercised through real processes, not a scripted reader.",
             "DESIGN.md §3 C17"),
     "C18": ("S", "model_checking",
@@ -100,7 +100,7 @@ CHECKS = {
             "DESIGN.md §3 C18"),
     "C19": ("P", "exploration",
             "full product of secret-supply configurations x run outcomes, one subprocess with a cleared environment per configuration, through the production router against the scripted provider; canary search over every persisted byte, response and process output",
-            "12 secret sources (three env variables incl. the endpoint-substring selected ones, inline api_key in the global / RIP_CONFIG / project / parent-project layer, {env: NAME} indirection, secret header, header + key, malformed header value / name) x 5 outcomes (success with a tool call, HTTP 401 echoing the request body, transport error, HTTP 500, tool failure) x request dump (thorough: on/off) x per-request overrides (thorough); the engine is built with OpenResponsesConfig::from_env() as serve does; the canary (raw, base64, percent-encoded) must be absent from every file under the data dir and workspace .rip/, /config/doctor, the session frames, error responses and stdout/stderr; the provider must have received it (vacuity guard); doctor must report presence and source.",
+            "15 secret sources (three configuration layers whose line with the inline key does not parse; three env variables incl. the endpoint-substring selected ones, inline api_key in the global / RIP_CONFIG / project / parent-project layer, {env: NAME} indirection, secret header, header + key, malformed header value / name) x 5 outcomes (success with a tool call, HTTP 401 echoing the request body, transport error, HTTP 500, tool failure) x request dump (thorough: on/off) x per-request overrides (thorough); the engine is built with OpenResponsesConfig::from_env() as serve does; the canary (raw, base64, percent-encoded) must be absent from every file under the data dir and workspace .rip/, /config/doctor, the session frames, error responses and stdout/stderr; the provider must have received it (vacuity guard); doctor must report presence and source.",
             "Decides the property for the enumerated configuration x outcome product only (an information-flow statement over all formatting paths cannot be closed by enumeration); SSE delivery is represented by the session's log frames.",
             "DESIGN.md §3 C19"),
     "C20": ("H-bfs", "model_checking",
